@@ -438,6 +438,46 @@ fn gen<'a>(guests: &'a [Guest], thorough: bool) -> impl Fn(&mut EnumCtx) + Sync 
                 }
             }
         }
+        // ---- a 16-byte store whose upper half lies in the NEXT area (mask varies): however the
+        // store is carried out, a denied access leaves memory unchanged
+        for mask in 0..8u32 {
+            for path in 0..2usize {
+                if !e.next() {
+                    continue;
+                }
+                e.describe("store-across", &format!("{} path {path}", mask_name(mask)));
+                let mut ax = machine(&[0x0F, 0x11, 0x00], 3, 3); // movups [rax], xmm0
+                ax.mem_init_area(0x70_1000, (0u8..0x10).collect()).unwrap();
+                ax.mem_init_area(0x70_1010, (0x10u8..0x20).collect()).unwrap();
+                ax.mem_prot(0x70_1010, mask).unwrap();
+                ax.reg_write_64(SR::RAX, 0x70_1008).unwrap();
+                ax.reg_write_128(crate::emu::XMM[0], 0xA1A2A3A4A5A6A7A8_B1B2B3B4B5B6B7B8u128).unwrap();
+                let before = areas_hash(&ax);
+                let (name, failed, panic) = if path == 0 {
+                    match guarded(|| ax.mem_write_128(0x70_1008, 0xA1A2A3A4A5A6A7A8_B1B2B3B4B5B6B7B8u128).map_err(|e| e.to_string())) {
+                        Ok(r) => ("mem_write_128", r.is_err(), None),
+                        Err(p) => ("mem_write_128", false, Some(p)),
+                    }
+                } else {
+                    match crate::emu::step(&mut ax) {
+                        StepOut::Ok(_) => ("movups [rax],xmm0", false, None),
+                        StepOut::Err(_) => ("movups [rax],xmm0", true, None),
+                        StepOut::Panic(p) => ("movups [rax],xmm0", false, Some(p)),
+                    }
+                };
+                e.outcome(crate::common::fnv64(format!("across{mask}/{path}/{failed}").as_bytes()));
+                e.state(14_000 + mask as u64 * 2 + path as u64);
+                e.count("transitions", 1);
+                let w = || json!({"mask_of_following_area": mask_name(mask), "store": name});
+                if let Some(p) = panic {
+                    e.finding(&format!("perm|store-across|panic@{}", p.tag()), || format!("{name} across two areas panicked"), w);
+                } else if failed && areas_hash(&ax) != before {
+                    e.finding("perm|store-across|denied-access-changed-memory", || format!("{name} at the last 8 bytes of a writable area, upper half in an area with mask {}: the store failed but memory changed", mask_name(mask)), w);
+                } else if !failed && mask & 2 == 0 {
+                    e.finding("perm|store-across|allowed-without-W", || format!("{name} wrote into an area with mask {}", mask_name(mask)), w);
+                }
+            }
+        }
         // ---- configurations
         if e.next() {
             e.describe("config", "constructor code area");
